@@ -90,6 +90,8 @@ def walk(ctx, gp, lvl, depth, budget, judge, mode="model"):
         s.setdefault("panic", "")
         s.setdefault("twin", [])
         s.setdefault("twinbase", 0)
+        if not s.get("prev"):
+            s["prev"] = []
         inp = [c["bytes"][0] for c in s["chunks"][(1 if lvl == "listen" else 0):]]
         fails.append(Failure("walk:%s:%s" % (lvl, mode), "graph walk (%s, %s): cfg cap=%s sysex=%s as=%s tc=%s input=%s step=%d expected=%s got=%s"
                              % (lvl, mode, s["cap"], s["sysex"], s["as"], s["tc"], " ".join("%02X" % b for b in inp), m["step"], m["expected"], m["got"]),
